@@ -260,7 +260,7 @@ def run(tier='quick', seed=0, nproc=16):
   res = common.pmap(check_set_tagged, gen.shuffled(jobs), nproc)
   res += common.pmap(check_survival, names, nproc)
   res += common.pmap(check_tag_ops, [(s.kinds, s.hasdef) for s in gen.all_sigs(2 if tier == 'quick' else 3)], nproc)
-  res.append(tagged_value_build())
+  res.append(common.guard(tagged_value_build))
   return common.merge(
       res, 'layerb.prop_C14',
       rule='pool configurations (tags on keyword, positional and **kwargs arguments, tag class '
